@@ -792,6 +792,81 @@ func c11PoolBlocks() [][2]interface{} {
 	return res
 }
 
+// c11BookkeepingAtomic: in every method of rsm.StateMachine that calls the user Update
+// (<s>.sm.Update / <s>.sm.BatchedUpdate) the applied-index bookkeeping that follows
+// (setApplied / setOnDiskIndex, deferred or not) runs in the critical section of
+// StateMachine.mu in which Update was called: the mutex is not released in between.
+func c11BookkeepingAtomic() bool {
+	p := loadPkg("internal/rsm")
+	found := 0
+	ok := true
+	for _, f := range p.Files {
+		for _, d := range f.Decls {
+			fd, isF := d.(*ast.FuncDecl)
+			if !isF || fd.Body == nil {
+				continue
+			}
+			t, r := c11Recv(fd)
+			if t != "StateMachine" {
+				continue
+			}
+			sec, cur, uSec := 0, 0, -1
+			var uPos token.Pos
+			var after []int
+			deferred := 0
+			ast.Inspect(fd.Body, func(n ast.Node) bool {
+				switch x := n.(type) {
+				case *ast.DeferStmt:
+					name := c11Sel(x.Call.Fun)
+					if name == r+".setApplied" || name == r+".setOnDiskIndex" {
+						deferred++
+					}
+					return false
+				case *ast.CallExpr:
+					name := c11Sel(x.Fun)
+					switch name {
+					case r + ".mu.Lock", r + ".mu.RLock":
+						sec++
+						cur = sec
+					case r + ".mu.Unlock", r + ".mu.RUnlock":
+						cur = 0
+					case r + ".sm.Update", r + ".sm.BatchedUpdate":
+						uSec, uPos = cur, x.Pos()
+					case r + ".setApplied", r + ".setOnDiskIndex":
+						if uSec >= 0 && x.Pos() > uPos {
+							after = append(after, cur)
+						}
+					}
+				}
+				return true
+			})
+			if uSec < 0 {
+				continue
+			}
+			found++
+			if uSec == 0 {
+				ok = false
+			}
+			for _, a := range after {
+				if a != uSec {
+					ok = false
+				}
+			}
+			// deferred bookkeeping runs when the function returns: the section then current
+			if deferred > 0 && cur != uSec {
+				ok = false
+			}
+			if deferred == 0 && len(after) == 0 {
+				ok = false
+			}
+		}
+	}
+	if found == 0 {
+		panic("no method of rsm.StateMachine calls the user Update")
+	}
+	return ok
+}
+
 func init() {
 	str := func(s string) string { return fmt.Sprintf("%q%%string", s) }
 	register(&Unit{Name: "C11", Imports: "From Coq Require Import Bool.", Facts: []Fact{
@@ -878,6 +953,10 @@ func init() {
 			}
 			b.WriteString("].\n")
 			return b.String()
+		}},
+		{Name: "apply_bookkeeping_in_update_section", Gen: func() string {
+			return "(* rsm.StateMachine update/handleBatch: setApplied/setOnDiskIndex run in the critical section of StateMachine.mu in which the user Update was called *)\n" +
+				defBool("apply_bookkeeping_in_update_section", c11BookkeepingAtomic())
 		}},
 		{Name: "apply_checks_stopped", Gen: func() string {
 			return "(* engine.processApplies tests node.stopped() before node.handleTask *)\n" +
